@@ -428,6 +428,22 @@ class Repo:
             if name in k.methods:
                 self.consulted.add(k.module)
                 return k, k.methods[name]
+            if name in k.class_attrs:
+                # the class body binds the name to a value: `get_x = _shared_get_x` (a function of the module, which
+                # becomes a method like any def), a closure made by a factory, a constant. It hides a def of that
+                # name further up the MRO.
+                v = k.class_attrs[name]
+                r_ = self.resolve_expr(k.module, v) if isinstance(v, (ast.Name, ast.Attribute)) else None
+                if isinstance(r_, tuple) and r_[0] == 'function':
+                    self.consulted.add(k.module)
+                    self.consulted.add(r_[1])
+                    r_[2]._home_module = r_[1]      # its globals are those of the module that defines it
+                    return k, r_[2]
+                later = mro[mro.index(k) + 1:]
+                if any(name in k2.methods for k2 in later) and not isinstance(v, ast.Constant):
+                    raise Unsupported('%s.%s is bound in the class body to %s, which hides the method of a base class'
+                                      % (k.qual, name, ast.unparse(v)[:60]))
+                break
         if missing_ok:
             return None
         raise AnchorError('method %s not found in MRO of %s' % (name, ci.qual))
